@@ -1249,18 +1249,41 @@ func (fr *Frame) atMapUpdateAsserts(ins *ssa.MapUpdate, k, v Term, st *State) {
 		}
 		name := strings.TrimPrefix(at.Callee, "mapupdate:")
 		ctx := fr.specCtx(st, fr.entry, fr.curBlock, fr.curIdx)
-		mt, err := ctx.eval(&EIdent{name})
-		if err != nil || mt.S != fr.val(ins.Map).S {
+		mt, err := ctx.eval(mustParse(name))
+		if err != nil {
 			continue
+		}
+		// is this the map the clause names? Decided syntactically when the terms coincide, otherwise
+		// left to the solver (a field path such as batch.channels is not textually the SSA register)
+		same := "true"
+		if mt.S != fr.val(ins.Map).S {
+			if mt.T == nil || !types.Identical(mt.T.Underlying(), ins.Map.Type().Underlying()) {
+				continue
+			}
+			same = fmt.Sprintf("(= %s %s)", mt.S, fr.val(ins.Map).S)
 		}
 		k.T = ins.Key.Type()
 		v.T = ins.Value.Type()
 		ctx.env["$key"] = k
 		ctx.env["$val"] = v
+		if at.Ghost != nil {
+			if same == "true" {
+				fr.applyGhosts([]*GhostAssign{at.Ghost}, ctx, st)
+			} else {
+				before := vc.get(st, at.Ghost.Name)
+				fr.applyGhosts([]*GhostAssign{at.Ghost}, ctx, st)
+				after := vc.get(st, at.Ghost.Name)
+				vc.set(st, at.Ghost.Name, fmt.Sprintf("(ite %s %s %s)", same, after, before))
+			}
+			continue
+		}
 		g, err := ctx.evalBool(at.Clause.E)
 		if err != nil {
 			vc.unsupportedf("at mapupdate %s: %v", name, err)
 			continue
+		}
+		if same != "true" {
+			g = fmt.Sprintf("(=> %s %s)", same, g)
 		}
 		vc.oblige("assert", fr.tagsFor(at.Clause.Tags), fr.curReach, g, fmt.Sprintf("at update of map %s: %s", name, at.Clause.Text), ins.Pos(), at.Clause)
 	}
